@@ -55,14 +55,15 @@ ASSUMPTIONS = [
     "qhull triangulations that do not tile the polygon exactly are counted and skipped (label tri-invalid)",
 ]
 FNS = ["line_tessellation", "match_1d", "triangulations", "surface_tessellations", "match_2d"]
-# Cases excluded by an open finding carry no labels, so the thresholds are set for the state with the findings
-# open: C33-match2d-rotated-overlay-collapse excludes ~58 % of the match_2d cases (those with a hanging node) and
-# C33-surface-tessellations-third-set-shared-edge most three-set cases (observed fractions of the counted cases:
-# match_2d 9 %, match2d-rotated 4 %, st-three-sets 2.5 %, st-simplexes 9 %).
+# Cases excluded by an open finding carry no labels, so the thresholds of the three-set family are set for the state
+# with C33-surface-tessellations-third-set-shared-edge open (it excludes most three-set cases; observed fractions of
+# the counted cases: st-three-sets 2 %, st-simplexes 8 %).  match_2d is searched in full (the overlay-collapse finding
+# is fixed): observed match_2d 20 %, match2d-rotated 10 %, match2d-hanging-node 12 %.
 REQUIRED = {
-    "line_tessellation": 0.1, "match_1d": 0.1, "triangulations": 0.1, "surface_tessellations": 0.08, "match_2d": 0.04,
+    "line_tessellation": 0.1, "match_1d": 0.1, "triangulations": 0.1, "surface_tessellations": 0.08, "match_2d": 0.1,
     "1d-shared-nodes": 0.05, "1d-skew-line": 0.05, "1d-axis-line": 0.03, "2d-shared-nodes": 0.03,
-    "2d-boundary-nodes": 0.03, "2d-valid": 0.25, "match2d-rotated": 0.01, "st-three-sets": 0.005, "st-simplexes": 0.02,
+    "2d-boundary-nodes": 0.03, "2d-valid": 0.25, "match2d-rotated": 0.04, "match2d-hanging-node": 0.05,
+    "match2d-rotated-hanging-node": 0.02, "st-three-sets": 0.005, "st-simplexes": 0.02,
 }
 RT = 1e-10
 
@@ -335,20 +336,6 @@ def _vertex_in_edge_interior(T1, T2):
     return False
 
 
-def _known_rotated_overlay(s) -> bool:
-    """match_2d where two cells with a common area are in a hanging-node relation: a vertex of one lies in the
-    interior of an edge of the other.  match_2d hands shapely coordinates that carry rounding noise - it always
-    subtracts the mean of the nodes (not representable in general) and, for a plane that is not z = const, rotates -
-    so the vertex is only within ~1e-16 of the edge; GEOS 3.13 then occasionally returns a MultiPoint / Point /
-    GeometryCollection instead of the common polygon (although relate() says the interiors intersect) and the
-    overlap is lost.  First seen for rotated planes (1 in ~120 cases), later also for z = const (about 1 in 1000:
-    seeds 12 and 13), hence no condition on the rotation."""
-    if s["fn"] != "match_2d":
-        return False
-    T = _tri_sets(s)
-    return T is not None and _vertex_in_edge_interior(T[0], T[1])
-
-
 def _interior_edges(tris, hull):
     n = len(hull)
     out = []
@@ -426,7 +413,6 @@ def _known_third_set(s) -> bool:
 KNOWN = {
     "C33-surface-tessellations-empty-polygon": _known_empty_polygon,
     "C33-surface-tessellations-third-set-shared-edge": _known_third_set,
-    "C33-match2d-rotated-overlay-collapse": _known_rotated_overlay,
 }
 
 
@@ -598,6 +584,12 @@ def check(s):
 
             if s["rot"] is not None:
                 labels.append("match2d-rotated")
+            # the class of the (fixed) overlay-collapse finding: a node of one grid in the interior of an edge of an
+            # overlapping cell of the other grid
+            if _vertex_in_edge_interior(tris[0][0], tris[1][0]):
+                labels.append("match2d-hanging-node")
+                if s["rot"] is not None:
+                    labels.append("match2d-rotated-hanging-node")
             gn, go = grid(0), grid(1)
             mn, mo, exm = tris[0][1], tris[1][1], np.array(exact)
             if s["swap"]:
